@@ -72,6 +72,12 @@ func (o *Options) ServerOptions() []string {
 	if o.Recurse() {
 		argstr += "r"
 	}
+	if o.XferDirs() >= 2 && !o.Recurse() {
+		// -d/--dirs: without -r the remote side does not otherwise learn
+		// that directories are to be transferred (rsync/options.c:
+		// server_options sends 'd' for xfer_dirs as well).
+		argstr += "d"
+	}
 	if o.AlwaysChecksum() {
 		argstr += "c"
 	}
